@@ -19,6 +19,8 @@ from .pymodel import package
 from .valueflow import (Flow, V, as_map, contains, lower, match, show, simp, subst, walk)
 
 FILE = "naunet/templateloader.py"
+_ANCHORS = ("_assign_rates",)      # methods the rules read as calls (C02.R5 / C03.R4), not as the value they return
+_MUTATORS = ("append", "extend", "add", "update", "insert", "pop", "remove", "clear", "sort", "reverse", "setdefault", "popitem", "discard")
 
 
 @dataclass
@@ -54,6 +56,10 @@ def YDOT(x):
     return ("fstr", (("const", "ydot[IDX_"), ("fmt", ("attr", x, "alias"), None, -1), ("const", "]")))
 
 
+def _opaque(t):
+    return isinstance(t, tuple) and bool(t) and t[0] in ("acc", "carried", "after", "unknown", "mutated")
+
+
 class OdeModel:
     def __init__(self, tree):
         self.tree = tree
@@ -63,8 +69,44 @@ class OdeModel:
         def _resolver(name, _pkg=pkg):
             _, f = _pkg.resolve("TemplateLoader", name)
             return f
-        self.flow = Flow(self.func, FILE, proc_resolver=_resolver)
+        # ... and small loop-free helper FUNCTIONS (`self._without(lst, x)` returning a value) are read as the value they return,
+        # provided they leave their arguments alone (an in-place edit of a list handed in would be lost in the value view)
+        def _pure_resolver(name, _pkg=pkg):
+            _, f = _pkg.resolve("TemplateLoader", name)
+            if f is None or name in _ANCHORS:
+                return None
+            ps = {a.arg for a in f.args.args + f.args.kwonlyargs}
+            for n in ast.walk(f):
+                if isinstance(n, ast.Call) and isinstance(n.func, ast.Attribute) and n.func.attr in _MUTATORS:
+                    b = n.func.value
+                    while isinstance(b, (ast.Attribute, ast.Subscript)):
+                        b = b.value
+                    if isinstance(b, ast.Name) and b.id in ps:
+                        return None
+                if isinstance(n, (ast.Assign, ast.AugAssign, ast.AnnAssign, ast.Delete)):
+                    for t in (n.targets if isinstance(n, (ast.Assign, ast.Delete)) else [n.target]):
+                        b = t
+                        while isinstance(b, (ast.Attribute, ast.Subscript)):
+                            b = b.value
+                        if b is not t and isinstance(b, ast.Name) and b.id in ps:
+                            return None
+            return f
+        # ... and a helper METHOD with loops whose call is a whole statement (`jac = self._build(n, entries)`) is replaced by its
+        # statements (parameters renamed to the arguments, locals made unique): an extracted block is still this code
+        import copy as _copy
+        from .normalize import inline_stmt_calls
+
+        def _stmt_resolver(call, _pkg=pkg):
+            f_ = call.func
+            if isinstance(f_, ast.Attribute) and isinstance(f_.value, ast.Name) and f_.value.id in ("self", "cls") and f_.attr not in _ANCHORS:
+                _, callee = _pkg.resolve("TemplateLoader", f_.attr)
+                if callee is not None and callee is not self.func:
+                    return callee, f_.value
+            return None
+        func = inline_stmt_calls(_copy.deepcopy(self.func), _stmt_resolver)
+        self.flow = Flow(func, FILE, proc_resolver=_resolver, resolver=_pure_resolver)
         fl = self.flow
+        self._expand_built_lists(fl)
         params = [a.arg for a in self.func.args.args if a.arg != "self"]
         if not params:
             raise AnalysisError("_prepare_ode_content lost its parameters", (FILE, self.func.lineno))
@@ -86,6 +128,37 @@ class OdeModel:
         self.RHS, self.JAC = ("acc", self.RHSNAME), ("acc", self.JACNAME)
         self.sites = []
         self._classify()
+
+    @staticmethod
+    def _expand_built_lists(fl):
+        """A list built by an accumulation loop with intermediate statements and read afterwards (`dterms = []; for r in ..: c =
+        copy; c.remove(..); dterms.append((r, term))` ... `for r, t in dterms:`) is read as the comprehension it is equal to
+        (valueflow.summarise_appends), in every index, value, guard and loop domain of this function's facts."""
+        from .valueflow import summarise_appends
+        for _ in range(3):
+            sm = summarise_appends(fl)
+            if not sm:
+                return
+            changed = False
+
+            def ex(v):
+                nonlocal changed
+                if not isinstance(v, tuple) or not any(x in sm for x in walk(v)):
+                    return v
+                changed = True
+                return simp(subst(v, sm))
+            for lp in fl.all_loops.values():
+                lp.iter = ex(lp.iter)
+            for f in fl.facts:
+                if f.target in {k[1] for k in sm}:
+                    continue
+                f.index = ex(f.index) if f.index is not None else None
+                f.value = ex(f.value) if f.value is not None else None
+                f.guards = tuple((ex(c), p_) for c, p_ in f.guards)
+            for nm, lst in fl.assigns.items():
+                lst[:] = [(ex(v), loops, tuple((ex(c), p_) for c, p_ in guards), line, seq) for v, loops, guards, line, seq in lst]
+            if not changed:
+                return
 
     def _array_names(self):
         """The locals playing the roles of rhs[] and jacrhs[] (robust to renaming)."""
@@ -188,7 +261,8 @@ class OdeModel:
         elif self.is_n_spec(row):
             s.row = ("tgas",)
         else:
-            s.problems.append(("viol", "row", f"row index is neither species.index(..) nor n_spec: {show(row)}"))
+            # an index read from a list built elsewhere is not understood, which is not the same as wrong
+            s.problems.append(("unrec" if contains(row, _opaque) else "viol", "row", f"row index is neither species.index(..) nor n_spec: {show(row)}"))
         if col is not None:
             cx = self.species_index(col)
             if cx is not None:
@@ -196,7 +270,7 @@ class OdeModel:
             elif col[0] == "elem" and col[1][0] == "call" and col[1][1] == ("global", "range"):
                 s.col = ("range", col[1][2], col[2])
             else:
-                s.problems.append(("viol", "col", f"column index is not species.index(..): {show(col)}"))
+                s.problems.append(("unrec" if contains(col, _opaque) else "viol", "col", f"column index is not species.index(..): {show(col)}"))
         # --- kind by enclosing loop
         kind = None
         if outer is not None:
@@ -404,6 +478,48 @@ class OdeModel:
                     s.problems.append(("viol", "removed-factor", f"removed factor {show(minus)} is not the factor of the column variable {show(want)}"))
                 if kind == "mod" and minus != Y(colvar):
                     s.problems.append(("viol", "removed-factor", f"removed factor {show(minus)} is not y[IDX_<alias of the column species>]"))
+
+
+def poly(v):
+    """Integer polynomial normal form of an index expression: {sorted tuple of atoms: coefficient}.  + - * and integer constants are
+    interpreted, everything else is an atom.  `row*n + 0`, `n*row`, `(row+1)*n - n` all compare equal to `row*n`."""
+    v = simp(v)
+
+    def add(a, b, sg=1):
+        out = dict(a)
+        for k, c in b.items():
+            out[k] = out.get(k, 0) + sg * c
+        return {k: c for k, c in out.items() if c}
+
+    def mul(a, b):
+        out = {}
+        for k1, c1 in a.items():
+            for k2, c2 in b.items():
+                k = tuple(sorted(k1 + k2, key=repr))
+                out[k] = out.get(k, 0) + c1 * c2
+        return {k: c for k, c in out.items() if c}
+    if v[0] == "const" and isinstance(v[1], int) and not isinstance(v[1], bool):
+        return {(): v[1]} if v[1] else {}
+    if v[0] == "binop" and v[1] in ("Add", "Sub"):
+        return add(poly(v[2]), poly(v[3]), 1 if v[1] == "Add" else -1)
+    if v[0] == "binop" and v[1] == "Mult":
+        return mul(poly(v[2]), poly(v[3]))
+    if v[0] == "unop" and v[1] == "USub":
+        return add({}, poly(v[2]), -1)
+    return {(v,): 1}
+
+
+def row_slice(m: OdeModel, sl, row):
+    """is `sl` the slice [row*n_eqns : (row+1)*n_eqns] (any arithmetic spelling)?  -> True / False / None (not a plain slice)"""
+    if sl[0] != "slice" or sl[3] != ("const", None):
+        return None
+    lo, hi = poly(sl[1]) if sl[1] != ("const", None) else {}, poly(sl[2])
+    ns = {a for k in list(lo) + list(hi) for a in k if m.is_n_eqns(a)}
+    if len(ns) != 1:
+        return False
+    n = next(iter(ns))
+    want_lo = poly(("binop", "Mult", row, n))
+    return lo == want_lo and hi == poly(("binop", "Add", ("binop", "Mult", row, n), n))
 
 
 def write_read_order(m: OdeModel, role: str):
